@@ -6,28 +6,30 @@ namespace CC
 
 structure Queue where
   d : Deque
+  /-- the queue's own copy of the allocator triple (used for its header) -/
+  triple : Triple := .conf
   deriving Repr, DecidableEq
 
 namespace Queue
 
 /-- `cc_queue_new_conf`: header through `mem_calloc`, then `cc_deque_new_conf`; a failed inner
 constructor releases the header and propagates the status -/
-def new (confCap : Nat) (m : Mem) : Stat × Option Queue × Mem :=
-  let a := m.alloc
+def new (confCap : Nat) (t : Triple) (m : Mem) : Stat × Option Queue × Mem :=
+  let a := m.allocT t
   if !a.1 then (.errAlloc, none, a.2) else
-  let r := Deque.new confCap a.2
+  let r := Deque.new confCap t a.2       -- cc_deque_new_conf(conf, &deque): the same configuration
   match r.2.1 with
-  | none => (r.1, none, r.2.2.free)
-  | some d => (.ok, some ⟨d⟩, r.2.2)
+  | none => (r.1, none, r.2.2.freeT t)
+  | some d => (.ok, some ⟨d, t⟩, r.2.2)
 
 /-- `cc_queue_destroy` -/
-def destroy (q : Queue) (m : Mem) : Mem := (q.d.destroy m).free
+def destroy (q : Queue) (m : Mem) : Mem := (q.d.destroy m).freeT q.triple
 
 /-- `cc_queue_destroy_cb`: `cc_deque_destroy_cb` (foreach, remove_all, destroy), then the header;
 returns the callback's argument sequence -/
 def destroyCb (q : Queue) (m : Mem) : List Nat × Mem :=
   let f := q.d.foreach m
-  (f.1, (q.d.removeAll.destroy f.2).free)
+  (f.1, (q.d.removeAll.destroy f.2).freeT q.triple)
 
 /-- `cc_queue_peek` -/
 def peek (q : Queue) (m : Mem) : Stat × Option Nat × Mem := q.d.getLast m
@@ -35,12 +37,12 @@ def peek (q : Queue) (m : Mem) : Stat × Option Nat × Mem := q.d.getLast m
 /-- `cc_queue_poll` -/
 def poll (q : Queue) (m : Mem) : Stat × Option Nat × Queue × Mem :=
   let r := q.d.removeLast m
-  (r.1, r.2.1, ⟨r.2.2.1⟩, r.2.2.2)
+  (r.1, r.2.1, { q with d := r.2.2.1 }, r.2.2.2)
 
 /-- `cc_queue_enqueue` -/
 def enqueue (q : Queue) (x : Nat) (m : Mem) : Stat × Queue × Mem :=
   let r := q.d.addFirst x m
-  (r.1, ⟨r.2.1⟩, r.2.2)
+  (r.1, { q with d := r.2.1 }, r.2.2)
 
 /-- `cc_queue_size` -/
 def size (q : Queue) : Nat := q.d.size
@@ -55,7 +57,7 @@ def iterNext (it : Deque.Iter) (q : Queue) (m : Mem) : Stat × Option Nat × Deq
 /-- `cc_queue_iter_replace` -/
 def iterReplace (it : Deque.Iter) (q : Queue) (x : Nat) (m : Mem) : Stat × Option Nat × Queue × Mem :=
   let r := Deque.iterReplace it q.d x m
-  (r.1, r.2.1, ⟨r.2.2.1⟩, r.2.2.2)
+  (r.1, r.2.1, { q with d := r.2.2.1 }, r.2.2.2)
 
 /-- `cc_queue_zip_iter_next` -/
 def zipNext (it : Deque.Iter) (q1 q2 : Queue) (m : Mem) : Stat × Option (Nat × Nat) × Deque.Iter × Mem :=
@@ -65,11 +67,12 @@ def zipNext (it : Deque.Iter) (q1 q2 : Queue) (m : Mem) : Stat × Option (Nat ×
 def zipReplace (it : Deque.Iter) (q1 q2 : Queue) (x y : Nat) (m : Mem) :
     Stat × Option (Nat × Nat) × Queue × Queue × Mem :=
   let r := Deque.zipReplace it q1.d q2.d x y m
-  (r.1, r.2.1, ⟨r.2.2.1⟩, ⟨r.2.2.2.1⟩, r.2.2.2.2)
+  (r.1, r.2.1, { q1 with d := r.2.2.1 }, { q2 with d := r.2.2.2.1 }, r.2.2.2.2)
 
 /-- content in iteration order (front of the inner deque first = newest element first) -/
 def abs (q : Queue) : List Nat := q.d.abs
-def Inv (q : Queue) : Prop := q.d.Inv
+/-- the inner deque's invariant; header and inner deque were given the same triple -/
+def Inv (q : Queue) : Prop := q.d.Inv ∧ q.d.triple = q.triple
 instance (q : Queue) : Decidable q.Inv := by unfold Inv; infer_instance
 
 end Queue
